@@ -26,6 +26,7 @@ import (
 
 	"github.com/tsawler/tabula"
 	"github.com/tsawler/tabula/contentstream"
+	"github.com/tsawler/tabula/reader"
 	"github.com/tsawler/tabula/verifhook"
 
 	"verifharness/fw"
@@ -217,6 +218,9 @@ func makeDocs(c *fw.Ctx, n int) (docs []docFile, bad []docFile) {
 		default:
 			g := pdfw.GenDoc(r, pdfw.DocOpts{MinPages: 1, MaxPages: 5, MaxLines: 10, MaxFonts: 3, TreeDepth: 1 + r.Intn(3), Inherit: "mixed", NoEmptyPages: true, FontWidths: true})
 			lay := pdfw.RandomLayout(r, 1)
+			if i%12 == 0 { // objects packed into Flate object streams written with an explicit /Predictor 1
+				lay.XRef, lay.ObjStm, lay.ObjStmFilter = []string{"stream"}, "all", "FlP1"
+			}
 			b := pdfw.Build(r.Int63(), lay, []*pdfw.Doc{g.Doc})
 			data, ext, kind, desc = b.Bytes, ".pdf", "pdf", fmt.Sprintf("pdf %d pages filter=%s xref=%v", len(g.Doc.Leaves()), lay.Filter, lay.XRef)
 		}
@@ -580,6 +584,66 @@ func dynamic(rq dynReq) *dynResp {
 		c.Sample(map[string]any{"id": id, "history": trace, "probe": filepath.Base(d.Path) + ":" + op})
 		compare("after-history", id+" after ["+strings.Join(trace, " ")+"]", d, op, got, true)
 		c.Seen("history_len", fmt.Sprint(len(trace)))
+	}
+	// interleaved use of two readers in one goroutine: a document is opened (its reader
+	// kept open by a non-terminal call), other documents are extracted in between, then the
+	// first one is read to the end — through the same extractor and through FromReader
+	for h := 0; h < c.N(120, 1500); h++ {
+		id := fmt.Sprintf("inter:%d", h)
+		if !c.Want(id) {
+			continue
+		}
+		r := c.Rand("inter", h)
+		var pdfs []docFile
+		for _, d := range docs {
+			if d.Kind == "pdf" {
+				pdfs = append(pdfs, d)
+			}
+		}
+		if len(pdfs) < 2 {
+			break
+		}
+		b := pdfs[r.Intn(len(pdfs))]
+		var got string
+		var between []string
+		mid := func() {
+			for k := 1 + r.Intn(3); k > 0; k-- {
+				a := docs[r.Intn(len(docs))]
+				ops := opsFor(a.Kind)
+				op := ops[r.Intn(len(ops))]
+				doOp(a.Path, op)
+				between = append(between, filepath.Base(a.Path)+":"+op)
+			}
+		}
+		enter()
+		if r.Intn(2) == 0 {
+			ex := tabula.Open(b.Path)
+			ex.PageCount() // opens the reader and leaves it open
+			mid()
+			s, _, err := ex.Text()
+			got = s
+			if err != nil {
+				got = "ERR: " + err.Error()
+			}
+			ex.Close()
+		} else {
+			rd, err := reader.Open(b.Path)
+			if err == nil {
+				rd.PageCount()
+				mid()
+				s, _, e2 := tabula.FromReader(rd).Text()
+				got = s
+				if e2 != nil {
+					got = "ERR: " + e2.Error()
+				}
+				rd.Close()
+			} else {
+				got = "ERR: " + err.Error()
+			}
+		}
+		leave()
+		compare("interleaved-readers", id+" (opened, then "+strings.Join(between, " ")+", then read)", b, "text", got, true)
+		c.Count("interleaved_reader_probes", 1)
 	}
 	// direct parser probe: operands left pending by one parse must not reach the next
 	for k := 0; k < c.N(200, 2000); k++ {
